@@ -51,7 +51,7 @@ func init() {
 		"bounded: all histories over the scenario alphabets up to the stated depth; data values outside the alphabets are not covered",
 	}
 	props["C01"] = propSpec{Checker: func() Checker { return chkC01{} }, Assume: common,
-		Runs: []runSpec{{"S-escrow", 7, 9, nil}, {"S-leased", 7, 9, nil}, {"S-life", 6, 8, nil}, {"S-collide", 2, 3, nil}}}
+		Runs: []runSpec{{"S-poor", 5, 7, nil}, {"S-escrow", 7, 9, nil}, {"S-leased", 7, 9, nil}, {"S-life", 6, 8, nil}, {"S-collide", 2, 3, nil}}}
 	props["C02"] = propSpec{Checker: func() Checker { return chkC02{} }, Assume: common,
 		Runs: []runSpec{{"S-collide", 2, 3, nil}, {"S-meter", 6, 8, nil}, {"S-escrow", 6, 8, nil}, {"S-leased", 6, 8, nil}, {Scenario: "S-grid", Grid: gridHistories}}}
 	props["C06"] = propSpec{Checker: func() Checker { return chkC06{} }, Assume: []string{
@@ -102,11 +102,11 @@ func init() {
 		Extra: c07Extra, LooseReplay: true,
 		Runs:  []runSpec{{"S-attr", 4, 6, nil}, {"S-meter", 4, 5, nil}, {"S-3bids", 5, 6, nil}, {"S-cert", 2, 3, nil}, {"S-life", 3, 4, nil}, {"S-escrow", 3, 4, nil}}}
 	props["C03"] = propSpec{Checker: func() Checker { return chkC03{} }, Assume: common,
-		Runs: []runSpec{{"S-escrow", 7, 9, nil}, {"S-leased", 7, 9, nil}, {"S-life", 6, 8, nil}, {"S-collide", 2, 3, nil}}}
+		Runs: []runSpec{{"S-poor", 5, 7, nil}, {"S-escrow", 7, 9, nil}, {"S-leased", 7, 9, nil}, {"S-life", 6, 8, nil}, {"S-collide", 2, 3, nil}}}
 	props["C04"] = propSpec{Checker: func() Checker { return chkC04{} }, Assume: common,
 		Runs: []runSpec{{"S-life", 6, 8, nil}, {"S-escrow", 7, 9, nil}, {"S-leased", 7, 9, nil}, {"S-collide", 2, 3, nil}}}
 	props["C05"] = propSpec{Checker: func() Checker { return chkC05{} }, Assume: common,
-		Runs: []runSpec{{"S-life", 6, 8, nil}, {"S-escrow", 7, 9, nil}, {"S-leased", 7, 9, nil}, {"S-collide", 2, 3, nil}}}
+		Runs: []runSpec{{"S-poor", 5, 7, nil}, {"S-life", 6, 8, nil}, {"S-escrow", 7, 9, nil}, {"S-leased", 7, 9, nil}, {"S-collide", 2, 3, nil}}}
 }
 
 type replayFile struct {
